@@ -293,6 +293,14 @@ func TestVerifC45(t *testing.T) {
 		if msg, _ := checkC45(groups, [][]mMatcher{{{labels.MatchEqual, "a", ""}, {labels.MatchEqual, "b", "1"}}}, []string{"replica"}); msg != "" {
 			rec.Violation(t, "regression templated-label + replicas: %s", msg)
 		}
+		// a label whose template parses on its own ({{ .Labels.x }}) is templated too: a=~".+" must not see it.
+		groups = []mGroup{{file: "f1", name: "g1", rules: []mRule{
+			{name: "r1", query: "up", labels: []mLabel{{name: "a", value: "{{ .Labels.x }}", templated: true}}, health: "ok", lastEval: 1600000000},
+			{name: "r2", query: "up", labels: []mLabel{{name: "a", value: "1"}}, health: "ok", lastEval: 1600000000},
+		}}}
+		if msg, _ := checkC45(groups, [][]mMatcher{{{labels.MatchRegexp, "a", ".+"}}}, nil); msg != "" {
+			rec.Violation(t, "regression parseable template: %s", msg)
+		}
 	}
 
 	rec.Check(t, func(rt *rapid.T) {
